@@ -54,6 +54,29 @@ def cases(tier, seed):
         c = layout_gen.indic_anchors_font(rng2)
         c.update({"cid": f"c06-{seed}-in{k}", "lib": rng2.choice(["ufoLib2", "defcon"]), "writers": ["mark"]})
         out.append(c)
+    # the feature file already defines a mark class under the writer's canonical name (@MC_<anchor>) whose anchor for one mark
+    # DISAGREES with the UFO: the generated lookups still attach by the UFO anchors (the writer renames its own class)
+    rng3 = random.Random(seed * 217645199 + 60007)
+    made = 0
+    for _try in range(400):
+        if made >= (12 if tier == "quick" else 150):
+            break
+        c = layout_gen.anchors_font(rng3)
+        by_key = {}
+        for n in c["ufo"]["glyphNames"]:
+            for a in c["ufo"]["glyphs"][n]["anchors"]:
+                if a["n"].startswith("_") and len(a["n"]) > 1 and not a["n"][1:].isdigit():
+                    by_key.setdefault(a["n"][1:], []).append(n)
+        keys = sorted(k_ for k_, ms in by_key.items() if len(ms) >= 2 and k_.isalpha())
+        if not keys:
+            continue
+        key = keys[made % len(keys)]
+        which = by_key[key][0 if made % 2 == 0 else -1]      # the clashing mark comes first / last in glyph order
+        stmt = f"markClass {which} <anchor {3 + made} {7 * made}> @MC_{key};"
+        c["ufo"]["fea"] = stmt + "\n" + c["ufo"]["fea"]
+        c.update({"cid": f"c06-{seed}-mc{made}", "lib": rng3.choice(["ufoLib2", "defcon"]), "writers": ["mark"]})
+        out.append(c)
+        made += 1
     # variable anchors: 2-3 master families (also with values that agree in the first- and last-listed source and differ in
     # between), read back at every master location
     from .. import gen
